@@ -186,6 +186,16 @@ def coq_build(cfg, clean=False, chk=False):
                 except OSError:
                     pass
         rc, out, dt = sh(["timeout", "3000", "make", "-j16"] + targets, cwd=COQ, timeout=3100)
+        for _ in range(3):
+            if rc != 0 and (".Makefile.d" in out or "inconsistent assumptions" in out or "bad version number" in out or "is corrupted" in out):
+                # the dependency file / a .vo was being rewritten by a concurrent make started outside the lock:
+                # regenerate the dependencies and try again
+                try:
+                    os.remove(os.path.join(COQ, ".Makefile.d"))
+                except OSError:
+                    pass
+                time.sleep(5)
+                rc, out, dt = sh(["timeout", "3000", "make", "-j16"] + targets, cwd=COQ, timeout=3100)
         if rc != 0:
             return False, out, None, None
         # always recompile Properties.v by hand to capture its Print Assumptions output
